@@ -56,21 +56,20 @@ Lemma has_id_map : forall (f : pchange -> pchange) l id, (forall x, pc_id (f x) 
 Proof. intros f l id Hf [c [Hin Hid]]. exists (f c). split; [apply in_map; assumption | rewrite Hf; assumption]. Qed.
 
 (* a change stays unless a visited entry with its id decided to remove it *)
-Lemma apply_keeps_change : forall p vs chs tks ab chs' tks' ab' pn id,
-  apply p vs chs tks ab = (chs', tks', ab', pn) -> has_id chs id ->
+Lemma apply_keeps_change : forall p vs chs tks ab chs' tks' ab' id,
+  apply p vs chs tks ab = (chs', tks', ab') -> has_id chs id ->
   (forall c d, In (c, d) vs -> pc_id c = id -> removes d = false) -> has_id chs' id.
 Proof.
-  intros p vs. induction vs as [|[c d] vs IH]; intros chs tks ab chs' tks' ab' pn id H Hid Hno; simpl in H.
+  intros p vs. induction vs as [|[c d] vs IH]; intros chs tks ab chs' tks' ab' id H Hid Hno; simpl in H.
   - inversion H; subst; assumption.
   - assert (Hrest : forall c0 d0, In (c0, d0) vs -> pc_id c0 = id -> removes d0 = false) by (intros; eapply Hno; [right; eassumption | assumption]).
     destruct d.
     + eapply IH; eassumption.
     + eapply IH; [eassumption | | assumption]. apply has_id_filter; [assumption|].
       intro E. specialize (Hno c RemoveEmpty (or_introl eq_refl) (eq_sym E)). discriminate.
-    + destruct (abort_walk [] _ false) as [[sts' marked] panic].
-      match type of H with context [map ?f chs] => assert (Hm : has_id (map f chs) id) end.
+    + match type of H with context [map ?f chs] => assert (Hm : has_id (map f chs) id) end.
       { apply has_id_map; [|assumption]. intros x. destruct (pc_id x =? pc_id c)%N; reflexivity. }
-      destruct panic; [inversion H; subst; assumption | eapply IH; eassumption].
+      eapply IH; eassumption.
     + eapply IH; [eassumption | | assumption]. apply has_id_filter; [assumption|].
       intro E. specialize (Hno c RemoveReady (or_introl eq_refl) (eq_sym E)). discriminate.
 Qed.
@@ -91,41 +90,37 @@ Proof.
 Qed.
 
 (* a task stays (through the change loop) unless a visited change that lists it was removed as ready *)
-Lemma apply_keeps_task : forall p vs chs tks ab chs' tks' ab' pn id ch sp,
-  apply p vs chs tks ab = (chs', tks', ab', pn) -> has_task tks id ch sp ->
+Lemma apply_keeps_task : forall p vs chs tks ab chs' tks' ab' id ch sp,
+  apply p vs chs tks ab = (chs', tks', ab') -> has_task tks id ch sp ->
   (forall c, In (c, RemoveReady) vs -> mem id (pc_tasks c) = false) -> has_task tks' id ch sp.
 Proof.
-  intros p vs. induction vs as [|[c d] vs IH]; intros chs tks ab chs' tks' ab' pn id ch sp H Hid Hno; simpl in H.
+  intros p vs. induction vs as [|[c d] vs IH]; intros chs tks ab chs' tks' ab' id ch sp H Hid Hno; simpl in H.
   - inversion H; subst; assumption.
   - assert (Hrest : forall c0, In (c0, RemoveReady) vs -> mem id (pc_tasks c0) = false) by (intros; apply Hno; right; assumption).
     destruct d.
     + eapply IH; eassumption.
     + eapply IH; eassumption.
-    + destruct (abort_walk [] _ false) as [[sts' marked] panic].
-      assert (Hs : has_task (set_statuses (pc_tasks c) sts' tks) id ch sp) by (apply has_task_set_statuses; assumption).
-      destruct panic; [inversion H; subst; assumption | eapply IH; eassumption].
+    + eapply IH; [eassumption | | assumption]. apply has_task_set_statuses; assumption.
     + eapply IH; [eassumption | | assumption]. destruct Hid as [t [Hin [Ht Hrest']]]. exists t. split; [|split; assumption].
       apply filter_In. split; [assumption|]. rewrite Ht. specialize (Hno c (or_introl eq_refl)). unfold mem in Hno. rewrite Hno. reflexivity.
 Qed.
 
 (* task ids only ever shrink, and the tasks listed by a change removed as ready are gone when Prune completes *)
-Lemma apply_tasks_subset : forall p vs chs tks ab chs' tks' ab' pn,
-  apply p vs chs tks ab = (chs', tks', ab', pn) -> forall id, In id (map pt_id tks') -> In id (map pt_id tks).
+Lemma apply_tasks_subset : forall p vs chs tks ab chs' tks' ab',
+  apply p vs chs tks ab = (chs', tks', ab') -> forall id, In id (map pt_id tks') -> In id (map pt_id tks).
 Proof.
-  intros p vs. induction vs as [|[c d] vs IH]; intros chs tks ab chs' tks' ab' pn H id Hin; simpl in H.
+  intros p vs. induction vs as [|[c d] vs IH]; intros chs tks ab chs' tks' ab' H id Hin; simpl in H.
   - inversion H; subst; assumption.
   - destruct d.
     + eapply IH; eassumption.
     + eapply IH; eassumption.
-    + destruct (abort_walk [] _ false) as [[sts' marked] panic]. destruct panic.
-      * inversion H; subst. rewrite set_statuses_ids in Hin. assumption.
-      * eapply IH in H; [|eassumption]. rewrite set_statuses_ids in H. assumption.
+    + eapply IH in H; [|eassumption]. rewrite set_statuses_ids in H. assumption.
     + eapply IH in H; [|eassumption]. apply in_map_iff in H. destruct H as [t [E Ht]]. apply filter_In in Ht.
       apply in_map_iff. exists t. tauto.
 Qed.
 
 Lemma apply_removes_tasks : forall p vs chs tks ab chs' tks' ab' c id,
-  apply p vs chs tks ab = (chs', tks', ab', false) -> In (c, RemoveReady) vs -> mem id (pc_tasks c) = true ->
+  apply p vs chs tks ab = (chs', tks', ab') -> In (c, RemoveReady) vs -> mem id (pc_tasks c) = true ->
   ~ In id (map pt_id tks').
 Proof.
   intros p vs. induction vs as [|[c0 d] vs IH]; intros chs tks ab chs' tks' ab' c id H Hin Hm; simpl in H; [contradiction|].
@@ -136,25 +131,22 @@ Proof.
   - destruct d.
     + eapply IH; eassumption.
     + eapply IH; eassumption.
-    + destruct (abort_walk [] _ false) as [[sts' marked] panic]. destruct panic; [inversion H|]. eapply IH; eassumption.
+    + eapply IH; eassumption.
     + eapply IH; eassumption.
 Qed.
 
 (* the changes on which the abort ran are exactly visited entries decided AbortIt *)
-Lemma apply_aborted : forall p vs chs tks ab chs' tks' ab' pn id,
-  apply p vs chs tks ab = (chs', tks', ab', pn) -> In id ab' -> In id ab \/ exists c, In (c, AbortIt) vs /\ pc_id c = id.
+Lemma apply_aborted : forall p vs chs tks ab chs' tks' ab' id,
+  apply p vs chs tks ab = (chs', tks', ab') -> In id ab' -> In id ab \/ exists c, In (c, AbortIt) vs /\ pc_id c = id.
 Proof.
-  intros p vs. induction vs as [|[c d] vs IH]; intros chs tks ab chs' tks' ab' pn id H Hin; simpl in H.
+  intros p vs. induction vs as [|[c d] vs IH]; intros chs tks ab chs' tks' ab' id H Hin; simpl in H.
   - inversion H; subst. left; assumption.
   - destruct d.
     + eapply IH in H; [|eassumption]. destruct H as [H|[c' [H1 H2]]]; [left; assumption | right; exists c'; split; [right|]; assumption].
     + eapply IH in H; [|eassumption]. destruct H as [H|[c' [H1 H2]]]; [left; assumption | right; exists c'; split; [right|]; assumption].
-    + destruct (abort_walk [] _ false) as [[sts' marked] panic]. destruct panic.
-      * inversion H; subst. apply in_app_or in Hin. destruct Hin as [Hin|[Hin|[]]]; [left; assumption|].
-        right. exists c. split; [left; reflexivity | assumption].
-      * eapply IH in H; [|eassumption]. destruct H as [H|[c' [H1 H2]]].
-        -- apply in_app_or in H. destruct H as [H|[H|[]]]; [left; assumption|]. right. exists c. split; [left; reflexivity | assumption].
-        -- right. exists c'. split; [right|]; assumption.
+    + eapply IH in H; [|eassumption]. destruct H as [H|[c' [H1 H2]]].
+      * apply in_app_or in H. destruct H as [H|[H|[]]]; [left; assumption|]. right. exists c. split; [left; reflexivity | assumption].
+      * right. exists c'. split; [right|]; assumption.
     + eapply IH in H; [|eassumption]. destruct H as [H|[c' [H1 H2]]]; [left; assumption | right; exists c'; split; [right|]; assumption].
 Qed.
 
@@ -166,22 +158,20 @@ Proof.
   apply in_map_iff. exists t. split; [|assumption]. rewrite Hi. reflexivity.
 Qed.
 
-Lemma apply_status_untouched : forall p vs chs tks ab chs' tks' ab' pn t,
-  apply p vs chs tks ab = (chs', tks', ab', pn) -> In t tks ->
+Lemma apply_status_untouched : forall p vs chs tks ab chs' tks' ab' t,
+  apply p vs chs tks ab = (chs', tks', ab') -> In t tks ->
   (forall c, In (c, AbortIt) vs -> mem (pt_id t) (pc_tasks c) = false) ->
   (forall c, In (c, RemoveReady) vs -> mem (pt_id t) (pc_tasks c) = false) -> In t tks'.
 Proof.
-  intros p vs. induction vs as [|[c d] vs IH]; intros chs tks ab chs' tks' ab' pn t H Hin Hab Hrm; simpl in H.
+  intros p vs. induction vs as [|[c d] vs IH]; intros chs tks ab chs' tks' ab' t H Hin Hab Hrm; simpl in H.
   - inversion H; subst; assumption.
   - assert (Hab' : forall c0, In (c0, AbortIt) vs -> mem (pt_id t) (pc_tasks c0) = false) by (intros; apply Hab; right; assumption).
     assert (Hrm' : forall c0, In (c0, RemoveReady) vs -> mem (pt_id t) (pc_tasks c0) = false) by (intros; apply Hrm; right; assumption).
     destruct d.
     + eapply IH; eassumption.
     + eapply IH; eassumption.
-    + destruct (abort_walk [] _ false) as [[sts' marked] panic].
-      assert (Hs : In t (set_statuses (pc_tasks c) sts' tks)).
-      { apply set_statuses_other; [assumption|]. apply Hab. left; reflexivity. }
-      destruct panic; [inversion H; subst; assumption | eapply IH; eassumption].
+    + eapply IH; [eassumption | | assumption | assumption].
+      apply set_statuses_other; [assumption|]. apply Hab. left; reflexivity.
     + eapply IH; [eassumption | | assumption | assumption]. apply filter_In. split; [assumption|].
       specialize (Hrm c (or_introl eq_refl)). unfold mem in Hrm. rewrite Hrm. reflexivity.
 Qed.
@@ -190,21 +180,19 @@ Qed.
 Definition vs_of (p : params) (order : list pchange) := visit p (ready_count order) order.
 
 Lemma prune_with_changes : forall p order s,
-  exists tks ab pn, apply p (vs_of p order) (ps_changes s) (ps_tasks s) [] = (r_changes (prune_with p order s), tks, ab, pn)
-                    /\ r_aborted (prune_with p order s) = ab /\ r_panic (prune_with p order s) = pn
-                    /\ (forall t, In t (r_tasks (prune_with p order s)) -> In t tks)
-                    /\ (pn = false -> forall t, In t tks ->
-                          (existsb (fun c => (pc_id c =? pt_change t)%N) (r_changes (prune_with p order s)) = true
-                           \/ prune_limit p <= pt_spawn t) -> In t (r_tasks (prune_with p order s))).
+  exists tks ab, apply p (vs_of p order) (ps_changes s) (ps_tasks s) [] = (r_changes (prune_with p order s), tks, ab)
+                 /\ r_aborted (prune_with p order s) = ab
+                 /\ (forall t, In t (r_tasks (prune_with p order s)) -> In t tks)
+                 /\ (forall t, In t tks ->
+                       (existsb (fun c => (pc_id c =? pt_change t)%N) (r_changes (prune_with p order s)) = true
+                        \/ prune_limit p <= pt_spawn t) -> In t (r_tasks (prune_with p order s))).
 Proof.
   intros p order s. unfold prune_with, vs_of.
-  destruct (apply p (visit p (ready_count order) order) (ps_changes s) (ps_tasks s) []) as [[[chs tks] ab] pn].
-  exists tks, ab, pn. destruct pn; simpl.
-  - repeat split; try reflexivity; [auto | discriminate].
-  - repeat split; try reflexivity.
-    + intros t Ht. apply filter_In in Ht. tauto.
-    + intros _ t Ht Hc. apply filter_In. split; [assumption|]. destruct Hc as [Hc|Hc]; [rewrite Hc; reflexivity|].
-      apply orb_true_iff. right. apply negb_true_iff. lia.
+  destruct (apply p (visit p (ready_count order) order) (ps_changes s) (ps_tasks s) []) as [[chs tks] ab].
+  exists tks, ab. simpl. repeat split; try reflexivity.
+  - intros t Ht. apply filter_In in Ht. tauto.
+  - intros t Ht Hc. apply filter_In. split; [assumption|]. destruct Hc as [Hc|Hc]; [rewrite Hc; reflexivity|].
+    apply orb_true_iff. right. apply negb_true_iff. lia.
 Qed.
 
 (* C09_removed_only_if *)
@@ -214,7 +202,7 @@ Theorem removed_only_if : forall p order s id,
     ((exists r, pc_ready c = Some r /\ (r < prune_limit p \/ p_max_ready p < count)) \/
      (pc_ready c = None /\ pc_tasks c = [] /\ clamped_spawn p c < prune_limit p)).
 Proof.
-  intros p order s id Hid Hgone. destruct (prune_with_changes p order s) as (tks & ab & pn & A & _).
+  intros p order s id Hid Hgone. destruct (prune_with_changes p order s) as (tks & ab & A & _).
   destruct (existsb (fun cd => (pc_id (fst cd) =? id)%N && removes (snd cd)) (vs_of p order)) eqn:E.
   - apply existsb_exists in E. destruct E as [[c d] [Hin Hc]]. simpl in Hc. apply andb_true_iff in Hc. destruct Hc as [Hc Hr].
     apply N.eqb_eq in Hc. apply visit_in in Hin. destruct Hin as [Hin [count Hd]]. exists c, count. repeat split; try assumption.
@@ -233,7 +221,7 @@ Theorem unfinished_kept : forall p order s id,
   has_id (ps_changes s) id -> (forall c, In c order -> pc_id c = id -> pc_ready c = None /\ pc_tasks c <> []) ->
   has_id (r_changes (prune_with p order s)) id.
 Proof.
-  intros p order s id Hid Hun. destruct (prune_with_changes p order s) as (tks & ab & pn & A & _).
+  intros p order s id Hid Hun. destruct (prune_with_changes p order s) as (tks & ab & A & _).
   eapply apply_keeps_change; [exact A | assumption|]. intros c d Hin Hc.
   apply visit_in in Hin. destruct Hin as [Hin [count Hd]]. destruct (Hun c Hin Hc) as [Hr Ht]. subst d.
   unfold decide. rewrite Hr. destruct (pc_tasks c); [congruence|]. rewrite andb_false_r.
@@ -253,11 +241,11 @@ Qed.
 (* C09_tasks_go_with_change, first half: when a finished change is removed (and Prune completes), every task it lists is removed *)
 Theorem tasks_go_with_change : forall p order s c id,
   NoDup (map pc_id order) -> In c order -> pc_ready c <> None -> has_id (ps_changes s) (pc_id c) ->
-  ~ has_id (r_changes (prune_with p order s)) (pc_id c) -> r_panic (prune_with p order s) = false ->
+  ~ has_id (r_changes (prune_with p order s)) (pc_id c) ->
   mem id (pc_tasks c) = true -> ~ In id (map pt_id (r_tasks (prune_with p order s))).
 Proof.
-  intros p order s c id Hn Hin Hr Hid Hgone Hp Hm Hc.
-  destruct (prune_with_changes p order s) as (tks & ab & pn & A & _ & Epn & Hsub & _). rewrite Hp in Epn. subst pn.
+  intros p order s c id Hn Hin Hr Hid Hgone Hm Hc.
+  destruct (prune_with_changes p order s) as (tks & ab & A & _ & Hsub & _).
   assert (Hd : In (c, RemoveReady) (vs_of p order)).
   { destruct (existsb (fun cd => (pc_id (fst cd) =? pc_id c)%N && removes (snd cd)) (vs_of p order)) eqn:E.
     - apply existsb_exists in E. destruct E as [[c' d] [Hin' Hc']]. simpl in Hc'. apply andb_true_iff in Hc'. destruct Hc' as [Hc' Hrm].
@@ -276,15 +264,15 @@ Qed.
 
 (* second half: a task survives when no removed finished change lists it and it is linked to a surviving change or is young *)
 Theorem tasks_kept_with_change : forall p order s id ch sp,
-  has_task (ps_tasks s) id ch sp -> r_panic (prune_with p order s) = false ->
+  has_task (ps_tasks s) id ch sp ->
   (forall c, In (c, RemoveReady) (vs_of p order) -> mem id (pc_tasks c) = false) ->
   (has_id (r_changes (prune_with p order s)) ch \/ prune_limit p <= sp) ->
   In id (map pt_id (r_tasks (prune_with p order s))).
 Proof.
-  intros p order s id ch sp Ht Hp Hno Hl.
-  destruct (prune_with_changes p order s) as (tks & ab & pn & A & _ & Epn & _ & Hback). rewrite Hp in Epn. subst pn.
-  destruct (apply_keeps_task _ _ _ _ _ _ _ _ _ _ _ _ A Ht Hno) as [t [Hin [E1 [E2 E3]]]].
-  apply in_map_iff. exists t. split; [assumption|]. apply Hback; [reflexivity | assumption|].
+  intros p order s id ch sp Ht Hno Hl.
+  destruct (prune_with_changes p order s) as (tks & ab & A & _ & _ & Hback).
+  destruct (apply_keeps_task _ _ _ _ _ _ _ _ _ _ _ A Ht Hno) as [t [Hin [E1 [E2 E3]]]].
+  apply in_map_iff. exists t. split; [assumption|]. apply Hback; [assumption|].
   destruct Hl as [[c [Hc Hcid]]|Hl]; [left | right; lia].
   apply existsb_exists. exists c. split; [assumption|]. rewrite E2, Hcid. apply N.eqb_refl.
 Qed.
@@ -293,7 +281,7 @@ Qed.
 Theorem abort_only_after : forall p order s id, In id (r_aborted (prune_with p order s)) ->
   exists c, In c order /\ pc_id c = id /\ pc_ready c = None /\ clamped_spawn p c < abort_limit p /\ is_pending p c = false.
 Proof.
-  intros p order s id Hin. destruct (prune_with_changes p order s) as (tks & ab & pn & A & Eab & _). rewrite Eab in Hin.
+  intros p order s id Hin. destruct (prune_with_changes p order s) as (tks & ab & A & Eab & _). rewrite Eab in Hin.
   eapply apply_aborted in Hin; [|exact A]. destruct Hin as [[]|[c [Hc Hid]]].
   apply visit_in in Hc. destruct Hc as [Hc [count Hd]]. symmetry in Hd. apply decide_abort in Hd.
   exists c. tauto.
@@ -303,13 +291,12 @@ Qed.
 Theorem status_untouched : forall p order s t, In t (ps_tasks s) ->
   (forall c, In (c, AbortIt) (vs_of p order) -> mem (pt_id t) (pc_tasks c) = false) ->
   (forall c, In (c, RemoveReady) (vs_of p order) -> mem (pt_id t) (pc_tasks c) = false) ->
-  r_panic (prune_with p order s) = false ->
   (existsb (fun c => (pc_id c =? pt_change t)%N) (r_changes (prune_with p order s)) = true \/ prune_limit p <= pt_spawn t) ->
   In t (r_tasks (prune_with p order s)).
 Proof.
-  intros p order s t Hin Hab Hrm Hp Hl.
-  destruct (prune_with_changes p order s) as (tks & ab & pn & A & _ & Epn & _ & Hback). rewrite Hp in Epn. subst pn.
-  apply Hback; [reflexivity | | assumption]. eapply apply_status_untouched; eassumption.
+  intros p order s t Hin Hab Hrm Hl.
+  destruct (prune_with_changes p order s) as (tks & ab & A & _ & _ & Hback).
+  apply Hback; [| assumption]. eapply apply_status_untouched; eassumption.
 Qed.
 
 (* C09_expired_gone *)
@@ -318,8 +305,8 @@ Theorem expired_gone : forall p order s x,
   (In x (r_notices (prune_with p order s)) <-> In x (ps_notices s) /\ x_last x + x_expire x >= p_now p).
 Proof.
   intros p order s x. unfold prune_with.
-  destruct (apply p (visit p (ready_count order) order) (ps_changes s) (ps_tasks s) []) as [[[chs tks] ab] pn].
-  destruct pn; simpl; rewrite !filter_In; unfold expired; split; split; intros [H1 H2]; split; try assumption; lia.
+  destruct (apply p (visit p (ready_count order) order) (ps_changes s) (ps_tasks s) []) as [[chs tks] ab].
+  simpl; rewrite !filter_In; unfold expired; split; split; intros [H1 H2]; split; try assumption; lia.
 Qed.
 
 (* ---- oldest first *)
@@ -412,9 +399,68 @@ Qed.
 Lemma sort_changes_ok : forall l, StronglySorted not_after (sort_changes l) /\ forall x, In x (sort_changes l) <-> In x l.
 Proof. intro l. split; [apply sort_changes_sorted | apply sort_changes_in]. Qed.
 
-(* the recorded panic (DESIGN finding 11 reached through Prune): tasks [Do; Done; Done] of an old unready change *)
-Definition panic_witness : pstate :=
+(* ------------------------------------------------------------------ Prune completes: every visited change gets its decision applied *)
+Lemma apply_changes_subset : forall p vs chs tks ab chs' tks' ab' id,
+  apply p vs chs tks ab = (chs', tks', ab') -> has_id chs' id -> has_id chs id.
+Proof.
+  intros p vs. induction vs as [|[c d] vs IH]; intros chs tks ab chs' tks' ab' id H Hid; simpl in H.
+  - inversion H; subst; assumption.
+  - destruct d.
+    + eapply IH; eassumption.
+    + eapply IH in H; [|eassumption]. destruct H as [x [Hx E]]. apply filter_In in Hx. exists x. tauto.
+    + eapply IH in H; [|eassumption]. destruct H as [x [Hx E]]. apply in_map_iff in Hx. destruct Hx as [y [Ey Hy]].
+      exists y. split; [assumption|]. subst x. rewrite <- E. destruct (pc_id y =? pc_id c)%N; reflexivity.
+    + eapply IH in H; [|eassumption]. destruct H as [x [Hx E]]. apply filter_In in Hx. exists x. tauto.
+Qed.
+
+(* every change whose visit decided a removal is gone at the end *)
+Lemma apply_removes_decided : forall p vs chs tks ab chs' tks' ab' c d,
+  apply p vs chs tks ab = (chs', tks', ab') -> In (c, d) vs -> removes d = true -> ~ has_id chs' (pc_id c).
+Proof.
+  intros p vs. induction vs as [|[c0 d0] vs IH]; intros chs tks ab chs' tks' ab' c d H Hin Hr; simpl in H; [contradiction|].
+  destruct Hin as [Hin|Hin].
+  - inversion Hin; subst. intro Hc. destruct d; try discriminate.
+    + eapply apply_changes_subset in Hc; [|eassumption]. destruct Hc as [x [Hx E]]. apply filter_In in Hx. destruct Hx as [_ Hx].
+      rewrite E, N.eqb_refl in Hx. discriminate.
+    + eapply apply_changes_subset in Hc; [|eassumption]. destruct Hc as [x [Hx E]]. apply filter_In in Hx. destruct Hx as [_ Hx].
+      rewrite E, N.eqb_refl in Hx. discriminate.
+  - destruct d0; eapply IH; eassumption.
+Qed.
+
+(* the abort ran on every change whose visit decided it, in visiting order *)
+Lemma apply_aborted_exactly : forall p vs chs tks ab chs' tks' ab',
+  apply p vs chs tks ab = (chs', tks', ab') ->
+  ab' = ab ++ map (fun cd => pc_id (fst cd)) (filter (fun cd => match snd cd with AbortIt => true | _ => false end) vs).
+Proof.
+  intros p vs. induction vs as [|[c d] vs IH]; intros chs tks ab chs' tks' ab' H; simpl in H.
+  - inversion H; subst. simpl. rewrite app_nil_r. reflexivity.
+  - destruct d; simpl; try (eapply IH; eassumption).
+    apply IH in H. rewrite H, <- app_assoc. reflexivity.
+Qed.
+
+Lemma visit_length : forall p l count, map fst (visit p count l) = l.
+Proof. intros p l. induction l as [|c l IH]; intros count; simpl; [reflexivity | rewrite IH; reflexivity]. Qed.
+
+(* C09_prune_completes: every change of the visiting order is visited exactly once; each one decided for removal is gone
+   at the end; the abort has run exactly on the ones decided for abort, in visiting order *)
+Theorem prune_completes : forall p order s,
+  map fst (vs_of p order) = order /\
+  (forall c d, In (c, d) (vs_of p order) -> removes d = true -> ~ has_id (r_changes (prune_with p order s)) (pc_id c)) /\
+  r_aborted (prune_with p order s) =
+    map (fun cd => pc_id (fst cd)) (filter (fun cd => match snd cd with AbortIt => true | _ => false end) (vs_of p order)).
+Proof.
+  intros p order s. destruct (prune_with_changes p order s) as (tks & ab & A & Eab & _). repeat split.
+  - apply visit_length.
+  - intros c d Hin Hr. eapply apply_removes_decided; eassumption.
+  - rewrite Eab. apply apply_aborted_exactly in A. exact A.
+Qed.
+
+(* the regression witness of the repaired defect (DESIGN finding 11 reached through Prune): tasks [Do; Done; Done] of an
+   old unready change: aborted to [Hold; Undo; Undo], the change stays unready *)
+Definition abort_witness : pstate :=
   mkPS [mkPC 1 (-1000) None [1; 2; 3]%N []] [mkPT 1 2 (-1000) 1; mkPT 2 4 (-1000) 1; mkPT 3 4 (-1000) 1] [] [].
-Definition panic_params : params := mkParams 0 0 None 10 100 5 [].
-Lemma prune_abort_panics : r_panic (prune panic_params panic_witness) = true.
-Proof. vm_compute. reflexivity. Qed.
+Definition abort_params : params := mkParams 0 0 None 10 100 5 [].
+Lemma abort_witness_result :
+  let r := prune abort_params abort_witness in
+  map (fun t => (pt_id t, pt_status t)) (r_tasks r) = [(1, 1); (2, 6); (3, 6)]%N /\ map pc_ready (r_changes r) = [None] /\ r_aborted r = [1%N].
+Proof. vm_compute. repeat split; reflexivity. Qed.
